@@ -2,9 +2,11 @@
 harness/ast_dump.py / Driver/Parse.lean), for C33 and C03.
 
 Trees are Python tuples `(kind, …)`; `sexpr(t)` renders them. "Well-formed" = expressible by the
-grammar, i.e. exactly the exclusions listed in Props/C33.lean:
-  * a binary operator's right child is a closed form (never an unparenthesised chain or an
-    open-ended form), its left child is a closed form or a chain;
+grammar; every generated tree satisfies `RT.WT` / `RT.WTI` of Props/C33.lean:
+  * a binary operator's right child is a closed form (never an unparenthesised chain; the grammar also
+    allows `let` / assignment / `return` as the right child of the LAST operator of a chain — not generated
+    here, see the deterministic `grammar-edge` stream of harness/c33.py), its left child is a closed form
+    or a chain;
   * receivers / callees are closed forms; a callee is never a dot access (`a.b(…)` is a method call);
   * in a sequence of block / top-level expressions, one ending in a dot access is never followed by
     one starting with `(` (`x.f` NEWLINE `(1)` is the method call `x.f(1)`);
